@@ -57,6 +57,9 @@ def generate(tier, seed):
             c['fap'] = [rng.choice([rng.dyadic(lo, hi, 12) if nap > 1 else lo, rng.choice(aps), hi * 3.0]) for _ in fw]
             if below:
                 c['fap'][0] = lo * 0.5
+            if k % 16 == 3:       # whole-number radii handed over as an integer array (bare numbers are AU)
+                c['fap'] = [float(math.ceil(a)) for a in c['fap']]
+                c['fap_int'] = True
             # SED wavelengths: include every filter wavelength plus others
             wav = sorted(set(fw + [rng.dyadic(0.2, 100.0, 8) for _ in range(max(0, nw - len(fw)))]))
             c['wav'] = wav
@@ -105,6 +108,9 @@ def impl(case):
         return dict(flux=[[float(x) for x in row] for row in np.asarray(r)])     # (n_wav, n_requests)
     fw = np.array([case['fwav'][i] for i in case['forder']])
     fa = np.array([case['fap'][i] for i in case['forder']])
+    if case.get('fap_int'):
+        fa = fa.astype(int)
+    fa0 = fa.copy()
     r = s.interpolate_variable(fw, fa)
     r = r.value if hasattr(r, 'value') else r
     return dict(flux=[float(x) for x in np.asarray(r)])
